@@ -5,12 +5,14 @@ mod afcmsg;
 mod ops;
 mod sign;
 mod util;
+mod wrap;
 
 fn main() {
     let args = vrt::Args::parse();
     match args.sub.as_str() {
         "afcmsg" => afcmsg::run(&args),
         "cmdsig" => sign::run(&args),
+        "wrap" => wrap::run(&args),
         s => vrt::die(&format!("unknown subcommand {s}")),
     }
 }
